@@ -4,8 +4,11 @@
 package c09
 
 import (
+	"bytes"
 	stdjson "encoding/json"
 	"fmt"
+	"os"
+	"regexp"
 	"strings"
 	"sync"
 
@@ -25,12 +28,16 @@ import (
 	"verif/internal/oracle/xmlinfo"
 )
 
+// the JavaScript media types as the command line tool registers them, so that scripts with
+// type="text/javascript" inside HTML reach the JS minifier
+var jsTypes = regexp.MustCompile("^(application|text)/(x-)?(java|ecma|j|live)script(1\\.[0-5])?$|^module$")
+
 func registry(nondefault bool) *minify.M {
 	m := minify.New()
 	if !nondefault {
 		m.Add("text/html", &html.Minifier{})
 		m.Add("text/css", &css.Minifier{})
-		m.Add("application/javascript", &js.Minifier{})
+		m.AddRegexp(jsTypes, &js.Minifier{})
 		m.Add("application/json", &mjson.Minifier{})
 		m.Add("image/svg+xml", &svg.Minifier{})
 		m.Add("text/xml", &xml.Minifier{})
@@ -38,7 +45,7 @@ func registry(nondefault bool) *minify.M {
 	}
 	m.Add("text/html", &html.Minifier{KeepComments: true, KeepSpecialComments: true, KeepDefaultAttrVals: true, KeepDocumentTags: true, KeepEndTags: true, KeepQuotes: true, KeepWhitespace: true})
 	m.Add("text/css", &css.Minifier{KeepCSS2: true, Precision: 3})
-	m.Add("application/javascript", &js.Minifier{KeepVarNames: true, Version: 2015, Precision: 3})
+	m.AddRegexp(jsTypes, &js.Minifier{KeepVarNames: true, Version: 2015, Precision: 3})
 	m.Add("application/json", &mjson.Minifier{KeepNumbers: true})
 	m.Add("image/svg+xml", &svg.Minifier{KeepComments: true, Precision: 3})
 	m.Add("text/xml", &xml.Minifier{KeepWhitespace: true})
@@ -93,7 +100,15 @@ func (v validator) css(in, out string) (bool, string) {
 	return true, ""
 }
 
-func xmlOK(s string) (bool, string) {
+// xmlOK: well-formedness by the own XML reader. ext = the document the text derives from
+// names an external DTD subset (the minifier drops the DOCTYPE), so entity references cannot
+// be judged.
+func xmlOK(s string, ext bool) (bool, string) {
+	for i := 0; i < len(s); i++ {
+		if c := s[i]; c < 0x20 && c != '\t' && c != '\n' && c != '\r' {
+			return false, fmt.Sprintf("control character 0x%02X is not a legal XML character", c)
+		}
+	}
 	items, err := xmlinfo.Tokenize(s)
 	if err != nil {
 		return false, err.Error()
@@ -101,8 +116,19 @@ func xmlOK(s string) (bool, string) {
 	if _, err := xmlinfo.Events(items); err != nil {
 		return false, err.Error()
 	}
+	if r := xmlinfo.IllegalCharRef(s); r != "" {
+		return false, "character reference " + r + " is not a legal XML character"
+	}
+	if !ext {
+		if n := xmlinfo.UndeclaredEntity(s); n != "" {
+			return false, "reference to the undeclared entity " + n
+		}
+	}
 	return true, ""
 }
+
+var rawEndPrefix = regexp.MustCompile(`(?i)</(script|style|textarea|title|iframe|xmp|noembed|noframes|noscript|plaintext)[^\s/>]`)
+var externalSubset = regexp.MustCompile(`<!DOCTYPE[^\[>]*\b(SYSTEM|PUBLIC)\b`)
 
 func pathData(s string) []string {
 	items, err := xmlinfo.Tokenize(s)
@@ -157,6 +183,34 @@ func scripts(s string) (js []string, styles []string, ok bool) {
 	return js, styles, true
 }
 
+// slug turns the head of an error message into a short class name for the failure kind.
+func slug(msg string) string {
+	if i := strings.Index(msg, " on line"); i >= 0 {
+		msg = msg[:i]
+	}
+	var b strings.Builder
+	for _, r := range strings.ToLower(msg) {
+		if r >= 'a' && r <= 'z' {
+			b.WriteRune(r)
+		} else if b.Len() > 0 && !strings.HasSuffix(b.String(), "-") {
+			b.WriteByte('-')
+		}
+		if b.Len() > 40 {
+			break
+		}
+	}
+	return strings.Trim(b.String(), "-")
+}
+
+func passedThrough(s string, in []string) bool {
+	for _, t := range in {
+		if t == s {
+			return true
+		}
+	}
+	return false
+}
+
 // CheckOne minifies one input and validates the output. Returns accepted=false when the
 // minifier reports an error (outside the property's premise).
 func (v validator) CheckOne(m *minify.M, typ string, in []byte, pristine bool) (kind, what string, accepted bool) {
@@ -171,27 +225,34 @@ func (v validator) CheckOne(m *minify.M, typ string, in []byte, pristine bool) (
 	accepted = true
 	o := string(out)
 	valid, why := true, ""
+	reason := "" // class of the validity failure, part of the failure kind
 	inputValid := true
 	switch typ {
 	case "application/javascript":
 		valid, why = v.js(o)
+		reason = "js-syntax"
 		if !valid {
 			inputValid, _ = v.js(string(in))
 		}
 	case "application/json":
+		reason = "json-syntax"
 		valid = stdjson.Valid(out) || len(strings.TrimSpace(o)) == 0 && len(strings.TrimSpace(string(in))) == 0
 		why = "encoding/json rejects it"
 		if !valid {
 			inputValid = stdjson.Valid(in)
 		}
 	case "text/xml":
-		valid, why = xmlOK(o)
+		ext := externalSubset.Match(in)
+		valid, why = xmlOK(o, ext)
+		reason = "not-well-formed"
 		if !valid {
-			inputValid, _ = xmlOK(string(in))
+			inputValid, _ = xmlOK(string(in), ext)
 		}
 	case "image/svg+xml":
-		valid, why = xmlOK(o)
-		inXML, _ := xmlOK(string(in))
+		ext := externalSubset.Match(in)
+		valid, why = xmlOK(o, ext)
+		reason = "not-well-formed"
+		inXML, _ := xmlOK(string(in), ext)
 		if !valid {
 			inputValid = inXML
 		} else {
@@ -203,6 +264,7 @@ func (v validator) CheckOne(m *minify.M, typ string, in []byte, pristine bool) (
 						_, e2 := svgpath.Parse(ip[i])
 						okIn = e2 == nil
 					}
+					reason = "path-data"
 					valid, why, inputValid = false, fmt.Sprintf("path data %q: %v", trunc(d), err), okIn && inXML && len(ip) == len(op)
 					break
 				}
@@ -213,6 +275,7 @@ func (v validator) CheckOne(m *minify.M, typ string, in []byte, pristine bool) (
 		// unmodified bundled stylesheets; mutated ones must merely be accepted again
 		if pristine {
 			valid, why = v.css(string(in), o)
+			reason = "css-tokens"
 		}
 	case "text/html":
 		ij, is, ok1 := scripts(string(in))
@@ -230,6 +293,16 @@ func (v validator) CheckOne(m *minify.M, typ string, in []byte, pristine bool) (
 					return n
 				}
 				if ne(ij) != ne(oj) || ne(is) != ne(os) {
+					reason = "raw-text-end-moved"
+					if rawEndPrefix.Match(in) {
+						// the dependency's HTML lexer ends a raw-text element at `</script` followed by
+						// ANY character; the HTML Standard requires white space, `/` or `>` there
+						reason += ":input-has-raw-end-tag-prefix"
+					} else if bytes.Contains(in, []byte("<!-->")) || bytes.Contains(in, []byte("<!--->")) {
+						// `<!-->` and `<!--->` are complete (abruptly closed) comments for a browser; the
+						// dependency's lexer reads on to the next `-->`
+						reason += ":input-has-abruptly-closed-comment"
+					}
 					valid, why = false, fmt.Sprintf("the input has %d script and %d style elements, the output %d and %d: the end of a raw-text element moved", len(ij), len(is), len(oj), len(os))
 				}
 			}
@@ -238,6 +311,10 @@ func (v validator) CheckOne(m *minify.M, typ string, in []byte, pristine bool) (
 				for _, s := range oj {
 					if strings.TrimSpace(s) == "" {
 						continue
+					}
+					if passedThrough(s, ij) {
+						k++
+						continue // not handed to a minifier (or left untouched): nothing was produced here
 					}
 					if okJS, e := v.js(s); !okJS {
 						// find the corresponding non-empty input script
@@ -252,6 +329,7 @@ func (v validator) CheckOne(m *minify.M, typ string, in []byte, pristine bool) (
 							}
 							n++
 						}
+						reason = "embedded-script-invalid"
 						valid, why, inputValid = false, fmt.Sprintf("embedded script %q: %s", trunc(s), e), inOK
 						break
 					}
@@ -265,6 +343,7 @@ func (v validator) CheckOne(m *minify.M, typ string, in []byte, pristine bool) (
 		if !inputValid {
 			kind = "invalid-output-of-invalid-input"
 		}
+		kind += ":" + reason
 		return kind, fmt.Sprintf("%s | output %q", why, trunc(o)), true
 	}
 	// accepted again
@@ -273,7 +352,7 @@ func (v validator) CheckOne(m *minify.M, typ string, in []byte, pristine bool) (
 		return "panic-on-output", p, true
 	}
 	if err2 != nil {
-		return "output-not-accepted-again", fmt.Sprintf("minifying the output again fails: %v | output %q", err2, trunc(o)), true
+		return "output-not-accepted-again:" + slug(err2.Error()), fmt.Sprintf("minifying the output again fails: %v | output %q", err2, trunc(o)), true
 	}
 	return "", "", true
 }
@@ -334,6 +413,16 @@ func Run(c *core.Check) {
 	}
 	defer pool.Close()
 	all := files.All()
+	if only := os.Getenv("VERIF_C09_ONLY"); only != "" { // development aid: restrict to matching file names
+		var sel []files.File
+		for _, f := range all {
+			if strings.Contains(f.Path, only) {
+				sel = append(sel, f)
+			}
+		}
+		all = sel
+		c.Exhaustive = false
+	}
 	var jobs []job
 	var small []files.File
 	for _, f := range all {
